@@ -22,7 +22,7 @@ git -C "$root/repo" clean -fdq -e target
 if [ "$patch" != "-" ]; then
   git -C "$root/repo" apply "$patch" || { echo "patch does not apply" >&2; exit 2; }
 fi
-rsync -a --delete /verif/harness/ "$root/harness/"
+rsync -a --delete "${HARNESS_SRC:-/verif/harness}/" "$root/harness/"
 sed -i "s#path = \"/repo\"#path = \"$root/repo\"#" "$root/harness/Cargo.toml"
 sed -i "s#/repo/src/errorcodes.rs#$root/repo/src/errorcodes.rs#g" "$root/harness/build.rs"
 sed -i "s#target-dir = \"/verif/target\"#target-dir = \"$root/target\"#" "$root/harness/.cargo/config.toml"
